@@ -379,6 +379,8 @@ def run_pool(cfgs, tier, seed, jobs, default_timeout):
         still = []
         for c, p, pc, t0 in running:
             to = c.get('opts', {}).get('timeout', default_timeout)
+            if os.environ.get('VERIF_CFG_TIMEOUT_CAP'):
+                to = min(to, float(os.environ['VERIF_CFG_TIMEOUT_CAP']))     # maintenance: sizing runs
             if pc.poll():
                 try:
                     results[c['name']] = pc.recv()
@@ -399,6 +401,9 @@ def run_pool(cfgs, tier, seed, jobs, default_timeout):
                                           wall=time.time() - t0, solver_time=0.0)
             else:
                 still.append((c, p, pc, t0))
+            if c['name'] in results and os.environ.get('VERIF_PROGRESS'):
+                with open(os.environ['VERIF_PROGRESS'], 'a') as f:
+                    f.write('%8.1fs %-8s %s\n' % (time.time() - t0, results[c['name']].get('status'), c['name']))
         running = still
     return results
 
